@@ -36,7 +36,7 @@ static inline void iora_slice_prepend_slice(iora_slice *a, const iora_slice *b) 
   if (b->lo != b->hi) a->lo = b->lo; }
 typedef struct { iora_slice buffer; iora_ovec fragmentBuffer; WsOpcode fragmentOpcode; bool closeSent; } WsSessionState;
 /* _sessions restricted to the session id being processed (witness key): the code reaches sessions only through find(sid) */
-typedef struct { size_t _maxFrameSize; bool _onError, _onTextMessage, _onBinaryMessage; bool has_gs; WsSessionState gs; } WsServer;
+typedef struct { size_t _maxFrameSize; bool _onError, _onTextMessage, _onBinaryMessage; bool has_gs; WsSessionState gs; iora_mutex _wsMutex; } WsServer;
 static inline WsSessionState *WsServer_sessions_find(WsServer *self, SessionId sid) { (void)sid; return self->has_gs ? &self->gs : NULL; }
 #define IORA_LOCK_GUARD(m) do { } while (0)
 
@@ -47,6 +47,10 @@ static inline void WsServer_cb_text(WsServer *self, SessionId sid, iora_ovec tex
 static inline void WsServer_cb_binary(WsServer *self, SessionId sid, iora_ovec b) { (void)self; (void)sid; G_bin_calls++; G_bin_n = b.n; G_bin_gk = b.gk; }
 static inline void WsServer_cb_error(WsServer *self, SessionId sid, const char *m) { (void)self; (void)sid; (void)m; G_err_calls++; }
 void WsServer_sendClose(WsServer *self, SessionId sid, uint16_t code, const char *reason);
+/* isValidUtf8() called on the incoming frame itself (not on the reassembled message): recorded with the frame's own bytes, so that the
+ * clause "UTF-8 is checked on exactly the joined bytes" decides it */
+static inline bool WsFrameIn_isValidUtf8(const WsFrameIn *f) { bool r = nondet_bool(); if (G_utf8_calls < 1000) G_utf8_calls++;
+  G_utf8_n = f->payload.n; if (GK < f->payload.n) G_utf8_gk = f->payload.p[GK]; G_utf8_res = r; return r; }
 bool WsTempFrame_isValidUtf8(const WsTempFrame *t);
 typedef struct { bool has; } WsParsed;
 /* WebSocketFrame::parse as proved in unit ws_parse: E1 consumed <= size, E2 no frame => consumed == 0, E3 a returned frame consumes >= 2 bytes.
@@ -65,6 +69,29 @@ static inline void WsServer_handleFrame(WsServer *self, SessionId sid, const WsP
 
 static inline void WsServer_sessions_erase(WsServer *self, SessionId sid) { (void)sid; self->has_gs = false; }
 static inline void WsServer_closeSession(WsServer *self, SessionId sid) { (void)self; (void)sid; }
+
+/* ---- outgoing frames (sendText/sendBinary/sendClose): "after an endpoint has sent a close frame it sends no further data frame" ---- */
+enum { WS_OUT_DATA = 1, WS_OUT_CLOSE = 2 };
+typedef struct { int kind; } WsOutFrame;
+typedef struct { int kind; } WsWire;
+static inline WsOutFrame WsOut_makeText(void) { return (WsOutFrame){ WS_OUT_DATA }; }
+static inline WsOutFrame WsOut_makeBinary(void) { return (WsOutFrame){ WS_OUT_DATA }; }
+static inline WsOutFrame WsOut_makeClose(void) { return (WsOutFrame){ WS_OUT_CLOSE }; }
+static inline WsWire WsOut_serialize(const WsOutFrame *f) { return (WsWire){ f->kind }; }
+static inline WsSessionState *WsServer_sessions_find_locked(WsServer *self, SessionId sid) { (void)sid;
+  IORA_ASSERT(self->_wsMutex.held, "LK: _sessions is accessed with _wsMutex held");
+  return self->has_gs ? &self->gs : NULL; }
+unsigned G_data_sent, G_close_sent;
+/* hands bytes to the transport. The ordering clauses live here, at the point where a frame becomes visible on the wire. */
+static inline void WsServer_sendRaw(WsServer *self, SessionId sid, const WsWire *w) { (void)sid;
+  if (w->kind == WS_OUT_DATA) {
+    IORA_ASSERT(self->_wsMutex.held, "CS2: a data frame is handed to the transport with _wsMutex held (recheck and send are atomic w.r.t. sendClose)");
+    IORA_ASSERT(self->has_gs && !self->gs.closeSent, "CS3: a data frame is sent only for a known session whose close frame has not been sent");
+    if (G_data_sent < 1000) G_data_sent++;
+  } else {
+    IORA_ASSERT(!self->has_gs || self->gs.closeSent, "CS1: closeSent is set BEFORE the close frame is handed to the transport (no data frame can slip in behind it)");
+    if (G_close_sent < 1000) G_close_sent++;
+  } }
 
 /* ---- client ---- */
 typedef struct { WsOpcode _fragmentOpcode; iora_ovec _fragmentBuffer; bool _onTextMessage, _onBinaryMessage; } WsClient;
